@@ -12,15 +12,15 @@ public:
     Phreeqc* e = p->PhreeqcPtr;
     return e->current_selected_output && e->current_selected_output->Get_new_def();
   }
-  // headings that IPhreeqc::EndRow will push as empty cells (mirrors its condition; B05_ENDROW_CHECKS_USER_PUNCH is set by
-  // tools/tracelib.py from the shape of EndRow in the source: does it consult -user_punch of the block?)
+  // headings that IPhreeqc::EndRow will push as empty cells (mirrors its condition). Whether EndRow consults -user_punch of the
+  // block is decided at RUN TIME: tools/tracelib.py reads the shape of EndRow from the source and sends `opt endrow_user_punch 0|1`
+  // at the start of every script (no compile-time flag: the harness binary is cached by name and time stamps only)
+  static bool& endrow_checks_user_punch() { static bool v = true; return v; }
   static std::vector<std::string> pending_headings(IPhreeqc* p) {
     std::vector<std::string> r;
     Phreeqc* e = p->PhreeqcPtr;
     if (e->current_selected_output && e->current_user_punch && e->n_user_punch_index >= 0) {
-#ifdef B05_ENDROW_CHECKS_USER_PUNCH
-      if (!e->current_selected_output->Get_user_punch()) return r;
-#endif
+      if (endrow_checks_user_punch() && !e->current_selected_output->Get_user_punch()) return r;
       const std::vector<std::string>& h = e->current_user_punch->Get_headings();
       for (size_t i = e->n_user_punch_index; i < h.size(); ++i) r.push_back(h[i]);
     }
